@@ -29,6 +29,15 @@ def main():
             result = mod.replay(data)
         else:
             result = mod.run(args.tier)
+    except common.WorkerCrash as e:
+        # the unchanged library never takes the interpreter down; a change that does (e.g. closing a generator that
+        # another thread is executing) is reported as a violation, with the work item as replay artefact
+        path = common.write_replay(prop, {'property': prop, 'key': 'interpreter-crash', 'what': str(e),
+                                          'replay': {'engine': 'crash', 'task': repr(e.task)}})
+        print(f'VIOLATION property={prop} replay={path}')
+        print('  key=interpreter-crash')
+        print(f'  {str(e)[:600]}')
+        sys.exit(1)
     except common.HarnessError as e:
         print(f'HARNESS-ERROR property={prop}: {e}', file=sys.stderr)
         sys.exit(2)
